@@ -17,6 +17,8 @@ fns, opaque external types with assume_specification) and whose executable funct
                                       put in front of the verifier instead of being reported as a lost anchor.
     //@before <anchor>=><text>        ghost text (proof blocks only) inserted before the first occurrence of anchor
     //@after <anchor>=><text>         ... or right after it
+    //@at_end <text>                  ghost text (proof blocks only) inserted before the closing brace of the body (bodies of
+                                      unit type only); may be given several times, the texts are concatenated
     //@end
 
     //@const <src path> <NAME>        emits `pub const NAME: <ty> = <literal>;` with the initialiser of /repo
@@ -126,7 +128,7 @@ def generate(unit, repo):
             continue
         if s.startswith("//@extract "):
             _, src, spec = s.split()
-            ret, specs, loops, substs, befores, attrs = None, [], {}, [], [], []
+            ret, specs, loops, substs, befores, attrs, at_end = None, [], {}, [], [], [], []
             none_ty = None
             i += 1
             while not lines[i].strip().startswith("//@end"):
@@ -158,6 +160,8 @@ def generate(unit, repo):
                 elif d.startswith("//@after "):
                     a, b = d[len("//@after "):].split("=>", 1)
                     befores.append((a, b, True))
+                elif d.startswith("//@at_end "):
+                    at_end.append(d[len("//@at_end "):])
                 elif d.startswith("//@"):
                     raise ValueError("unknown directive: " + d)
                 i += 1
@@ -231,6 +235,9 @@ def generate(unit, repo):
                 if after:
                     k += len(a)
                 body = body[:k] + " " + b + " " + body[k:]
+            if at_end:
+                k = body.rstrip().rfind("}")
+                body = body[:k] + " " + " ".join(at_end) + "\n" + body[k:]
             if loops:
                 pos = extract.loop_positions(body)
                 for k in sorted(loops, reverse=True):
